@@ -1,7 +1,7 @@
 ------------------------------ MODULE TraceCtx ------------------------------
 EXTENDS CtxOp, TraceIO
 TraceInit == CInit /\ TraceInitL
-TReset == IsEv("reset") /\ Consume /\ cancelled' = {} /\ avail' = 0 /\ op' = NoOp /\ reg' = "zero"
+TReset == IsEv("reset") /\ Consume /\ cancelled' = {} /\ avail' = 0 /\ ops' = {} /\ reg' = "zero"
 TCall == IsEv("call") /\ Consume /\ Call(Ev.p, Ev.ctx)
 TCancel == IsEv("cancel") /\ Consume /\ Cancel(Ev.ctx)
 TFeed == IsEv("feed") /\ Consume /\ Feed
